@@ -214,6 +214,83 @@ def run_e2e(R, shard, n, obs):
                               "observed": {k: tspec.tstr(v) if not isinstance(v, bool) else v for k, v in seen.items()}})
 
 
+def _vecify(T):
+    return ("vec", T[1], T[2]) if isinstance(T, tuple) and T[0] == "col" else T
+
+
+def nested_candidates(seed, tier):
+    """(shape, op1, op2, A, B, C): all scalar type triples x all operator pairs x both nestings, plus a seeded sample over
+    all spellable types"""
+    S = tspec.spellable()
+    sc = [t for t in S if isinstance(t, str)]
+    for A in sc:
+        for B in sc:
+            for C in sc:
+                for op1 in tspec.OPS:
+                    for op2 in tspec.OPS:
+                        yield ("left", op1, op2, A, B, C)
+                        yield ("right", op1, op2, A, B, C)
+    rng = random.Random(seed * 31 + 5)
+    for _ in range(6000 if tier == "quick" else 120000):
+        yield (rng.choice(["left", "right"]), rng.choice(tspec.OPS), rng.choice(tspec.OPS), rng.choice(S), rng.choice(S), rng.choice(S))
+
+
+def run_nested(R, shard, n, seed, tier):
+    """`(a op1 b) op2 c` and `a op2 (b op1 c)`: the conversion probe judges every operator node of the real tree at the
+    add-implicit-casts boundary"""
+    from ..mon import convprobe
+    for i, (shape_, op1, op2, A, B, C) in enumerate(nested_candidates(seed, tier)):
+        if i % n != shard:
+            continue
+        if shape_ == "left":
+            s1 = tspec.spec(op1, A, B)
+            if s1[0] != tspec.OK:
+                continue
+            s2 = tspec.spec(op2, _vecify(s1[1]), C)
+            text = "(a %s b) %s c" % (op1, op2)
+        else:
+            s1 = tspec.spec(op1, B, C)
+            if s1[0] != tspec.OK:
+                continue
+            s2 = tspec.spec(op2, A, _vecify(s1[1]))
+            text = "a %s (b %s c)" % (op2, op1)
+        if s2[0] != tspec.OK:
+            continue
+        T = _vecify(s2[1])
+        src = "export function f (%s a, %s b, %s c) -> %s {\n  return %s;\n}\n" % (type_str(A), type_str(B), type_str(C), type_str(T), text)
+        findings, counters = [], {}
+
+        def listener(kind, name, root, inner):
+            if kind == "AST" and name == "add-implicit-casts":
+                convprobe.binary_conversions(root, findings, counters)
+
+        out = nslapi.compile_source(src, listener=listener)
+        R.evaluations += 1
+        R.count("nested_programs")
+        if not out.accepted:
+            # (acceptance of each single combination is judged by the end-to-end sweep; a nesting of two defined
+            # combinations that is rejected is reported here)
+            R.violation("nested:rejected:%s:%s" % (sclass(A) + sclass(B) + sclass(C), shape_),
+                        "%s with %s a, %s b, %s c is rejected (%s: %s); both operators are defined for these operand types"
+                        % (text, tspec.tstr(A), tspec.tstr(B), tspec.tstr(C), out.reject["name"], out.reject["msg"][:60]),
+                        {"mode": "nested", "sources": {"main": src}})
+            continue
+        for k_, v in counters.items():
+            if isinstance(v, int):
+                R.count("nested_" + k_, v)
+        if counters.get("probe_errors"):
+            R.inconclusive.append("conversion probe failed: %s" % counters.get("last_probe_error"))
+            continue
+        if counters.get("nested_nodes", 0):
+            R.nontriv("nested", src)
+        for (op, L0, R0, L1, R1, eL, eR, nest) in findings:
+            R.violation("nested:wrong-operand-conversion:%s:%s" % ("inner" if nest else "outer", shape_),
+                        "%s (%s a, %s b, %s c): operator %s at nesting depth %d has operands %s, %s after implicit casts (written %s, %s); defined %s, %s"
+                        % (text, tspec.tstr(A), tspec.tstr(B), tspec.tstr(C), op, nest, tspec.tstr(L1), tspec.tstr(R1), tspec.tstr(L0), tspec.tstr(R0),
+                           tspec.tstr(eL), tspec.tstr(eR)), {"mode": "nested", "sources": {"main": src}})
+            break
+
+
 def _nonzero(v):
     if isinstance(v, list):
         return [_nonzero(x) for x in v]
@@ -228,6 +305,7 @@ def run_shard(tier, seed, shard, n, R):
     findings_before = len(rec.findings)
     obs = vmobs.Observer()
     run_e2e(R, shard, n, obs)
+    run_nested(R, shard, n, seed, tier)
     R.count("contract_evaluations_e2e", rec.evaluations - before)
     # contract findings raised during the e2e compiles that the interface sweep did not already have
     for f in rec.findings[findings_before:]:
@@ -265,6 +343,16 @@ def replay(case):
         except Exception:
             pass
         return bool(rec.findings), {"findings": [{k: str(v) for k, v in f.items()} for f in rec.findings]}
+    if case.get("mode") == "nested":
+        from ..mon import convprobe
+        findings, counters = [], {}
+
+        def listener(kind, name, root, inner):
+            if kind == "AST" and name == "add-implicit-casts":
+                convprobe.binary_conversions(root, findings, counters)
+
+        out = nslapi.compile_source(case["sources"]["main"], listener=listener)
+        return (not out.accepted) or bool(findings), {"accepted": out.accepted, "findings": [str(f) for f in findings], "counters": counters}
     L, Rr = _tt(case["L"]), _tt(case["R"])
     src, s, out, seen = probe_e2e(case["op"], L, Rr)
     bad = False
